@@ -8,7 +8,8 @@ TARGETS = ['selfies/grammar_rules.py::get_selfies_from_index',
            'selfies/encoder.py::_ring_bonds_to_selfies',
            'selfies/utils/smiles_utils.py::atom_to_smiles',
            'selfies/grammar_rules.py::process_atom_symbol',
-           'selfies/grammar_rules.py::_process_atom_selfies_no_cache']
+           'selfies/grammar_rules.py::_process_atom_selfies_no_cache',
+           'selfies/utils/smiles_utils.py::smiles_to_atom']
 EXPLANATION = ('Mixed. PROVED: get_selfies_from_index yields at most three index symbols below 16^3 and only symbols of the index alphabet (C16 contracts) and every clause listed in coverage.clauses. BOUNDED (not counted as proved): decoder accepts encoder(s) under the same table; equivalent same-order spellings give the identical SELFIES string; encoder(decoder(encoder(s))) == encoder(s); over the corpus, special bracket spellings and ring/branch lengths needing 1-2 index symbols.')
 
 
